@@ -162,6 +162,10 @@ PROFILES = {
   "popon-reuse": dict(styles=("RCL",), pacs=("P15i0", "P15i8", "P15cy", "P14i0"), tos=(), mids=(), texts=("Tab", "Tc"),
                       chars=("X",), bs=False, der=False, enm=False, edm=False, neutral=(), nl=False, doubling="always",
                       rate="n", reuse=True),
+  # pop-on, three and more successive captions over a minimal alphabet: the flip (EOC) swaps the two memories, so what a
+  # caption leaves in the non-displayed memory comes back two flips later unless ENM cleared it
+  "popon-swap": dict(styles=("RCL",), pacs=("P15i0", "P14i0", "P1i0"), tos=(), mids=(), texts=("Tab",), chars=(), bs=False, der=False,
+                     enm=True, edm=False, neutral=(), nl=False, doubling="always", rate="n", reuse=False),
   "rollup": dict(styles=("RU2", "RU3", "RU4"), pacs=("P15i0", "P15i8", "P15cy", "P14i0", "P14wu", "P1i0"), tos=(), mids=("Mit", "Mgu"),
                  texts=("Tab", "Tc"), chars=("X",), bs=True, der=False, enm=False, edm=True, neutral=(), nl=False,
                  doubling="always", rate="d", reuse=True),
@@ -183,9 +187,9 @@ PROFILES = {
                  doubling="both", rate="d", reuse=False),
 }
 DEPTHS = {
-  "quick": {"popon-layout": 7, "popon-pen": 6, "popon-reuse": 7, "rollup": 7, "painton": 6, "painton-words": 7, "mix": 9,
+  "quick": {"popon-swap": 12, "popon-layout": 7, "popon-pen": 6, "popon-reuse": 7, "rollup": 7, "painton": 6, "painton-words": 7, "mix": 9,
             "deco-n": 5, "deco-d": 6},
-  "thorough": {"popon-layout": 9, "popon-pen": 7, "popon-reuse": 8, "rollup": 8, "painton": 7, "painton-words": 8, "mix": 10,
+  "thorough": {"popon-swap": 15, "popon-layout": 9, "popon-pen": 7, "popon-reuse": 8, "rollup": 8, "painton": 7, "painton-words": 8, "mix": 10,
                "deco-n": 7, "deco-d": 7},
 }
 
